@@ -53,4 +53,8 @@ class AbstractBorrower(object):
         if 'exts' not in options:
             options['exts'] = self.exts
 
+        # transformed files are stored under the exact module name
+        if 'fuzzyMatching' not in options:
+            options['fuzzyMatching'] = False
+
         return self._reader.getData(mibname, **options)
